@@ -339,7 +339,7 @@ func TestBlockAccounting(t *testing.T) {
 			expect, expectState, expectBurn := run.outs, scratch, run.totalBurn
 
 			// 2. the same sequence with the pool left as ApplyTransaction leaves it (only needed if that can differ)
-			d11 := false
+			var alt *runner
 			if anyLate {
 				s2, err := A.StateAt(preRoot)
 				if err != nil {
@@ -351,13 +351,7 @@ func TestBlockAccounting(t *testing.T) {
 					run2.apply(d)
 				}
 				if !sameExecuted(run.outs, run2.outs) {
-					// the block is one in which the leaked gas changes what is executed: the known finding D11
-					d11 = true
-					if !ev.Violation(t, keyD11, text(), "a transaction rejected after its gas was bought leaves the block gas pool reduced, and a later transaction of this block that fits the block is therefore rejected") {
-						return
-					}
-					classes["known-D11-manifest"] = true
-					expect, expectState, expectBurn = run2.outs, s2, run2.totalBurn
+					alt = run2 // a block in which the leaked gas changes what is executed
 				}
 			}
 
@@ -377,6 +371,28 @@ func TestBlockAccounting(t *testing.T) {
 				}
 			}
 			bA := applyEntry(t, text, A, eA)
+			matches := func(outs []outcome) bool {
+				_, want := executedOf(outs)
+				if len(bA.info.Receipts) != len(want) {
+					return false
+				}
+				for i, rc := range bA.info.Receipts {
+					if receiptDiff(rc, want[i]) != "" {
+						return false
+					}
+				}
+				return true
+			}
+			d11 := false
+			if alt != nil && !matches(expect) && matches(alt.outs) {
+				// the block behaves exactly like the sequence with the leaked pool: the known finding D11, and nothing else
+				d11 = true
+				if !ev.Violation(t, keyD11, text(), "block %d: a transaction rejected after its gas was bought leaves the block gas pool reduced, and a later transaction of this block that fits the block is therefore rejected", height) {
+					return
+				}
+				classes["known-D11-manifest"] = true
+				expect, expectState, expectBurn = alt.outs, alt.st, alt.totalBurn
+			}
 			_, wantReceipts := executedOf(expect)
 			if len(bA.info.Receipts) != len(wantReceipts) {
 				var got []string
